@@ -11,6 +11,9 @@
 (*        "d"/"db"   dose row with / without a duration (bolus by default)   *)
 (*        "c"        covariate row (no time)                                 *)
 (*   t = 0 encodes a missing time, v is a value code.                        *)
+(* The output-observable mapping is a FUNCTION output -> observable: the     *)
+(* order in which the caller writes its entries carries no information (the  *)
+(* replayer writes it in both orders).                                      *)
 (* A dataset is Extra (any sequence of up to MaxExtra rows) followed by the  *)
 (* fixed base rows (one measurement and one covariate value per individual), *)
 (* so every individual can be evaluated.                                    *)
